@@ -576,6 +576,26 @@ func pipeRandPairs(rng *Rng, maxN int) map[string]string {
 	return m
 }
 
+// binaryKey makes key k of the generator a file source with non-UTF-8 content (binaryData of a ConfigMap)
+func (g *pipeGen) binaryKey(rng *Rng, s *pipeGenSpec, k string) {
+	var lits []string
+	for _, l := range s.Literals {
+		if !strings.HasPrefix(l, k+"=") {
+			lits = append(lits, l)
+		}
+	}
+	s.Literals = lits
+	var fs []pipeSrc
+	for _, f := range s.FileSrcs {
+		if !strings.HasPrefix(f.Spec, k+"=") {
+			fs = append(fs, f)
+		}
+	}
+	g.srcN++
+	pth := fmt.Sprintf("b%d.bin", g.srcN)
+	s.FileSrcs = append(fs, pipeSrc{Spec: k + "=" + pth, Path: pth, Content: []byte{0xff, 0x00, byte(0x41 + rng.Intn(3))}})
+}
+
 func (g *pipeGen) genSpec(rng *Rng, secret bool, layer *pipeDir) pipeGenSpec {
 	s := pipeGenSpec{Name: g.freshName(map[bool]string{false: "ConfigMap", true: "Secret"}[secret])}
 	if g.useNs && rng.Chance(40) {
@@ -610,8 +630,10 @@ func (g *pipeGen) genSpec(rng *Rng, secret bool, layer *pipeDir) pipeGenSpec {
 		for i := 0; i < nf; i++ {
 			pth := fmt.Sprintf("f%d-%d.txt", g.srcN, i)
 			spec := pth
-			if rng.Chance(50) {
-				spec = fmt.Sprintf("fk%d=%s", i, pth)
+			if rng.Chance(60) {
+				// keys shared with the literal keys: a merge over another generator may move a key between
+				// data and binaryData
+				spec = fmt.Sprintf("%s=%s", rng.Pick([]string{"a", "b", "key", "fk"}), pth)
 			}
 			var content []byte
 			switch rng.Intn(4) {
@@ -624,6 +646,9 @@ func (g *pipeGen) genSpec(rng *Rng, secret bool, layer *pipeDir) pipeGenSpec {
 			}
 			s.FileSrcs = append(s.FileSrcs, pipeSrc{Spec: spec, Path: pth, Content: content})
 		}
+	}
+	if !secret && rng.Chance(12) {
+		g.binaryKey(rng, &s, "a")
 	}
 	if secret && rng.Chance(30) {
 		s.Type = rng.Pick([]string{"Opaque", "kubernetes.io/tls", "x"})
@@ -738,6 +763,11 @@ func pipeGenCase(rng *Rng, rules []krusty.VerifC03Rule) *pipeCase {
 					}
 				}
 				sp.Name, sp.Namespace = tg.Name, tg.Ns
+				if kind == "ConfigMap" && sp.Behavior == "merge" && rng.Chance(45) {
+					// a key the target (probably) holds in data arrives as binaryData, or the other way round:
+					// MergeDataMapFrom / MergeBinaryDataMapFrom keep it in one map only
+					g.binaryKey(rng, sp, rng.Pick([]string{"a", "b"}))
+				}
 				if rng.Chance(15) {
 					sp.Namespace = ""
 				}
@@ -1353,11 +1383,8 @@ func pipeTracersIn(d *pipeDir, acc map[string]int) {
 func pipeOracles(pc *pipeCase, o pipeOutcome) [][3]string {
 	var out [][3]string
 	if o.Cls == ClsPanic {
-		// known C12 finding (class panic:api/resmap.(*Factory).FromResourceSlice:explicit-may-not-add): an id collision
-		// among the resources IgnoreLocal keeps panics; the model reproduces it (corpus/PIPE/case_hashclash.json)
-		if strings.Contains(o.Msg, "may not add resource with an already registered id") {
-			return nil
-		}
+		// no exemption: the id collision among the resources IgnoreLocal keeps (former C12 finding, class
+		// panic:api/resmap.(*Factory).FromResourceSlice:explicit-may-not-add) is an error since /repo 9a490e0 + 66fde0c
 		return append(out, [3]string{"no_panic", "PIPE/panic", o.Msg})
 	}
 	if o.Cls != ClsOk {
